@@ -188,9 +188,38 @@ class C06Life(Monitor):
         if deme.id not in self.mc_before:
             self.v("a freshly sprouted deme ran in the metaepoch it was created in", deme=deme.id)
 
+    def _ref_lsc(self, d, deme):
+        """The documented rule of each shipped local stop condition, recomputed from the deme's public state."""
+        k = d["k"]
+        if k == "dontstop":
+            return False
+        if k == "dontrun":
+            return True
+        if k == "melimit":
+            return deme.metaepoch_count >= d["n"]
+        if k == "children":
+            return bool(deme.children) and all(not c.is_active for c in deme.children)
+        if k == "steady":
+            n = d["n"]
+            if n > deme.metaepoch_count:
+                return False
+            h = deme._history
+            avg = [np.mean([ind.fitness for generation in h[j] for ind in generation]) for j in range(-n, 0)]
+            return bool(np.mean(avg) - np.min(avg) <= d["dev"])
+        return None  # user-defined: no reference
+
     def on_lsc(self, deme, verdict):
         self.lsc_verdicts.setdefault(deme.id, []).append(verdict)
-        self.cov(f"lsc_verdict.{self.ctx.desc['levels'][deme.level]['lsc']['k']}.{verdict}")
+        d = self.ctx.desc["levels"][deme.level]["lsc"]
+        self.cov(f"lsc_verdict.{d['k']}.{verdict}")
+        try:
+            want = self._ref_lsc(d, deme)
+        except Exception:
+            want = None
+        if want is not None:
+            self.cov("lsc_verdicts_compared_with_documented_rule")
+            if bool(want) != bool(verdict):
+                self.v(f"local stop condition's verdict differs from its documented rule: {d['k']}", deme=deme.id, verdict=bool(verdict), rule=bool(want), metaepochs=deme.metaepoch_count)
 
     def on_gsc(self, tree, verdict, kind, deme):
         if verdict and kind == "deme":
@@ -337,7 +366,7 @@ class C07Structure(Monitor):
                     self.v("deme.level != index of the level holding it", deme=d.id, level=d.level, held_in=li)
                 if eng is not None and type(d).__name__ != ENGINE_CLASS[eng]:
                     self.v("deme is not of the engine configured for its level", deme=d.id, have=type(d).__name__, configured=ENGINE_CLASS[eng])
-                if eng in ("custom", "custom_ea"):
+                if eng in ("custom", "custom_ea", "custom_ea2"):
                     self.cov("custom_deme_class_seen")
                     self.cov(f"custom_deme_class_seen.{eng}")
                 ps = parents.get(id(d), [])
@@ -427,7 +456,7 @@ class C07Structure(Monitor):
         if deme.level != parent.level + 1:
             self.v("child not created one level below its parent", deme=deme.id, parent=parent.id)
         cname = type(deme).__name__
-        if cname in ("EADeme", "DEDeme", "SHADEDeme", "TaggedEADeme"):
+        if cname in ("EADeme", "DEDeme", "SHADEDeme", "TaggedEADeme", "TaggedEADeme2"):
             first = deme.history[0]
             sk = canon(ind.genome).tobytes()
             self.cov("pop_children_checked")
